@@ -347,10 +347,60 @@ impl Display for Format<'_, Formula> {
                     self.fmt_unary(inner, f)
                 }
             }
-            Formula::BinaryFormula { lhs, rhs, .. } => {
-                self.fmt_binary(Format(lhs.as_ref()), Format(rhs.as_ref()), f)
+            Formula::BinaryFormula {
+                connective,
+                lhs,
+                rhs,
+            } => {
+                // `p <- X$i > 3` would be read as the comparison `p < -X$i > 3`: a right operand
+                // of `<-` whose text begins with a comparison needs parentheses.
+                if *connective == BinaryConnective::ReverseImplication
+                    && begins_with_comparison(rhs)
+                {
+                    self.fmt_binary(
+                        Format(lhs.as_ref()),
+                        Parenthesized(Format(rhs.as_ref())),
+                        f,
+                    )
+                } else {
+                    self.fmt_binary(Format(lhs.as_ref()), Format(rhs.as_ref()), f)
+                }
             }
         }
+    }
+}
+
+fn begins_with_comparison(formula: &Formula) -> bool {
+    match formula {
+        Formula::AtomicFormula(AtomicFormula::Comparison(_)) => true,
+        Formula::BinaryFormula { lhs, .. } => begins_with_comparison(lhs),
+        _ => false,
+    }
+}
+
+struct Parenthesized<'a>(Format<'a, Formula>);
+
+impl Display for Parenthesized<'_> {
+    fn fmt(&self, f: &mut Formatter<'_>) -> fmt::Result {
+        self.0.fmt(f)
+    }
+}
+
+impl Precedence for Parenthesized<'_> {
+    fn precedence(&self) -> usize {
+        self.0.precedence()
+    }
+
+    fn associativity(&self) -> Associativity {
+        self.0.associativity()
+    }
+
+    fn mandatory_parentheses(&self) -> bool {
+        true
+    }
+
+    fn fmt_operator(&self, f: &mut Formatter<'_>) -> fmt::Result {
+        self.0.fmt_operator(f)
     }
 }
 
